@@ -343,6 +343,27 @@ impl Ctx {
         }
     }
 
+    /// As [`eval`], for exhaustive matrices where every failing cell is wanted: a failure is
+    /// recorded (once per key) but does not stop the enumeration or the counting.
+    pub fn eval_nofreeze<T: Serialize>(&self, sub: &str, case: &T, f: impl FnOnce(&T) -> CaseResult) -> bool {
+        self.journal(sub, case);
+        match guard(|| f(case)) {
+            Ok(info) => {
+                let js = || serde_json::to_value(case).unwrap_or(Value::Null);
+                let digest = crate::Fnv::new().str(&serde_json::to_string(case).unwrap_or_default()).get();
+                self.record_pass(sub, &js, digest, info);
+                true
+            }
+            Err(fl) => {
+                let first = !self.inner.lock().unwrap().violations.iter().any(|v| v["sub"] == sub && v["key"] == fl.key.as_str());
+                if first {
+                    self.record_violation(sub, serde_json::to_value(case).unwrap_or(Value::Null), &fl);
+                }
+                false
+            }
+        }
+    }
+
     /// Drive `f` with `cases` values of `strat` (or with the replay case if one was given for
     /// this sub-check). On failure the shrunk value is recorded as a violation.
     pub fn run<S>(&self, sub: &str, cases: u32, strat: S, f: impl Fn(&S::Value) -> CaseResult)
